@@ -90,8 +90,37 @@ var ops = []string{"AddGroup", "AddUser", "DelGroup", "DelUser", "LookupGroup", 
 // NumOps is len(ops).
 const NumOps = 8
 
+// forced is one call of a concrete prefix history (u: user name, g: group name).
+type forced struct{ op, u, g string }
+
+// Prefixes are concrete histories run (in lock-step with the model, under the
+// same assertions) before the symbolic steps, so that short symbolic histories
+// start from states that need several calls to reach.
+var Prefixes = [][]forced{
+	nil,
+	{{"AddUser", "a", "root"}, {"DelUser", "a", ""}},
+	{{"AddGroup", "", "a"}, {"DelGroup", "", "a"}},
+	{{"AddGroup", "", "a"}, {"AddUser", "a", "a"}, {"DelGroup", "", "a"}},
+	{{"DelUser", "root", ""}},
+	{{"AddGroup", "", "b"}, {"AddUser", "b", "b"}, {"DelUser", "b", ""}, {"DelGroup", "", "b"}},
+}
+
+// NumPrefixes is len(Prefixes).
+const NumPrefixes = 6
+
+var (
+	script  []forced
+	curStep int
+)
+
 // pick returns a name: one of the pool (incl. the administrator's name) or a fully symbolic string of n bytes.
 func pick(tag string, n int) string {
+	if curStep < len(script) {
+		if tag == "u" {
+			return script[curStep].u
+		}
+		return script[curStep].g
+	}
 	switch sym.Choose(tag+"src", 4) {
 	case 0:
 		return "root"
@@ -104,7 +133,9 @@ func pick(tag string, n int) string {
 }
 
 // HSeq: a history of L calls on a fresh MemIdm, in lock-step with the model.
-func HSeq(L, n int) {
+func HSeq(L, n, pre int) {
+	script = Prefixes[pre]
+	L += len(script)
 	idm := memidm.New()
 	m := newModel()
 	sym.Reach("start")
@@ -113,7 +144,13 @@ func HSeq(L, n int) {
 	ag := idm.AdminGroup()
 	sym.Assert(au != nil && au.Uid() == 0 && au.IsAdmin() && ag != nil && ag.Gid() == 0, "C15|start|administrator-missing")
 	for step := 0; step < L; step++ {
-		op := ops[sym.Choose("op", NumOps)]
+		curStep = step
+		var op string
+		if step < len(script) {
+			op = script[step].op
+		} else {
+			op = ops[sym.Choose("op", NumOps)]
+		}
 		sym.Label("memidm|" + op)
 		switch op {
 		case "AddGroup":
